@@ -40,6 +40,51 @@ func randScalar(r *rand.Rand) *big.Int {
 	}
 }
 
+// shapedScalars: scalars in [1, r-1] with a shape rather than random bits - every power of two and its
+// neighbours around limb, half-limb and window boundaries, values whose low or high part is all zeros
+// or all ones, r minus such values. Scalar-multiplication code with a "short exponent" path, a window
+// recoding or a limb loop treats exactly these differently from a random scalar.
+func shapedScalars(r *rand.Rand) []*big.Int {
+	seen := map[string]bool{}
+	var out []*big.Int
+	add := func(k *big.Int) {
+		k = new(big.Int).Mod(k, ref.R)
+		if k.Sign() != 0 && !seen[k.String()] {
+			seen[k.String()] = true
+			out = append(out, k)
+		}
+	}
+	one := big.NewInt(1)
+	for b := uint(1); b <= 254; b++ {
+		interesting := b%8 == 0 || b%8 == 1 || b%8 == 7 || b >= 120 && b <= 140 || b >= 250 || b%5 == 0
+		if !interesting {
+			continue
+		}
+		p := new(big.Int).Lsh(one, b)
+		add(p)
+		add(new(big.Int).Sub(p, one))
+		add(new(big.Int).Add(p, one))
+		add(new(big.Int).Add(p, big.NewInt(int64(2+r.IntN(1000)))))
+		add(new(big.Int).Sub(ref.R, p))
+		if b >= 64 {
+			// top bit at b, random low 64 bits, zeros between
+			add(new(big.Int).Add(p, new(big.Int).SetUint64(r.Uint64())))
+			// top bit at b, everything below random
+			add(new(big.Int).Add(p, new(big.Int).Rsh(new(big.Int).SetBytes(mon.RandBytes(r, 32)), 256-b)))
+		}
+	}
+	add(new(big.Int).Rsh(ref.R, 1))
+	add(new(big.Int).Add(new(big.Int).Rsh(ref.R, 1), one))
+	add(new(big.Int).Sub(ref.R, one))
+	add(new(big.Int).Sub(ref.R, big.NewInt(2)))
+	ff := new(big.Int).Sub(new(big.Int).Lsh(one, 128), one)
+	add(new(big.Int).Lsh(ff, 64))  // 0x00..FF..FF 00..00
+	add(new(big.Int).Lsh(ff, 120)) // ones in the upper part
+	add(new(big.Int).SetBytes(bytes.Repeat([]byte{0x55}, 31)))
+	add(new(big.Int).SetBytes(bytes.Repeat([]byte{0x0f}, 32)))
+	return out
+}
+
 var sk1 = sync.OnceValue(func() crypto.PrivateKey { return skFromInt(big.NewInt(1)) })
 
 // ---- convention measurement (only C05 judges it) ---------------------------------------
